@@ -888,6 +888,20 @@ def _eval_pkg(spec):
         except Exception as e:  # noqa: BLE001
             mut["exc"] = repr(e)[:200]
         res["mut"] = mut
+        # one configuration OBJECT used, edited in place (compression switched on / off / to another level) and used again:
+        # each envelope carries the header of the configuration as it is at the time of the call (seeded change C09-15:
+        # the header bytes cached on the configuration at first use)
+        reuse = []
+        cfg1 = EnvelopeConfig(format=EnvelopeFormat.JSON, zstd=None)
+        for z in (None, 0, None, 3):
+            cfg1.zstd = z
+            try:
+                raw = pkg.to_bytes(cfg1)
+                ok = _docs(Package.from_bytes(raw)) == want2
+                reuse.append({"z": z, "head": raw[:10], "zframe": raw[10:14] == ZSTD_FRAME_MAGIC, "same": ok})
+            except Exception as e:  # noqa: BLE001
+                reuse.append({"z": z, "exc": repr(e)[:200]})
+        res["cfg_reuse"] = reuse
     except Exception as e:  # noqa: BLE001
         res["mut"] = {"skip": repr(e)[:200]}
     # reference: the package codec without any envelope
@@ -1260,6 +1274,18 @@ def _oracle_pkg(spec):
         fails.append(Failure("Package.to_bytes", "re-encoding-a-modified-package-is-stale",
                              f"{len(mut['got'][0])} modules / {len(mut['got'][1])} extensions decoded, "
                              f"{len(mut['want'][0])} / {len(mut['want'][1])} in the package"))
+    for u in res.get("cfg_reuse", []):
+        if "exc" in u:
+            fails.append(Failure("Package.to_bytes", "configuration-object-used-again-after-an-edit:fails", f"zstd={u['z']}: {u['exc']}"))
+            break
+        want_h = _doc_header("JSON", u["z"] is not None)
+        if u["head"] != want_h or u["zframe"] != (u["z"] is not None):
+            fails.append(Failure("Package.to_bytes", "configuration-object-used-again-after-an-edit:header-or-payload-not-the-current-setting",
+                                 f"zstd={u['z']}: header {u['head']!r}, zstd frame {u['zframe']}"))
+            break
+        if not u["same"]:
+            fails.append(Failure("Package.from_bytes", "configuration-object-used-again-after-an-edit:decodes-to-another-package", f"zstd={u['z']}"))
+            break
     for r in res["cfgs"]:
         if "bad_cfg" in r:
             continue
